@@ -1937,56 +1937,120 @@ func vlogRewindGroup(c *Ctx, rule string) {
 // internalKeysHiddenGroup: keys the engine itself writes into the default column family (the
 // value-log discard statistics under "!NoKV!…") are not part of a user's snapshot.
 func internalKeysHiddenGroup(c *Ctx, rule string) {
-	c.Rule(rule, "TxnIterator.advance skips keys carrying the engine's internal prefix (bytes.HasPrefix(userKey, internalKeyPrefix)) unless IteratorOptions.InternalAccess is set; the discard-statistics key written by valueLog.flushDiscardStats carries that prefix")
-	fn := c.Fn("", "TxnIterator.advance")
-	if fn == nil {
+	c.Rule(rule, "TxnIterator.advance skips the engine's own bookkeeping records (the discard-statistics key written by valueLog.flushDiscardStats) unless IteratorOptions.InternalAccess is set, and DBIterator.populate never emits them; the test hides exactly the engine's keys (equality with lfDiscardStatsKey, directly or in a helper) – a test on the whole \"!NoKV!\" prefix also hides live client keys, which Set and Get accept under that prefix – and DBIterator.populate applies utils.Options.Prefix like the transaction iterator does")
+	if obj := c.P.LookupObj("", "lfDiscardStatsKey"); obj == nil {
+		c.Errorf("UNRESOLVED-ANCHOR NoKV.lfDiscardStatsKey")
 		return
 	}
-	pref := false
-	for _, hp := range Calls(fn, false, Named("bytes.HasPrefix")) {
-		if u, ok := hp.Common().Args[1].(*ssa.UnOp); ok {
-			if g, ok := u.X.(*ssa.Global); ok && g.Name() == "internalKeyPrefix" {
-				pref = true
+	isGlobal := func(v ssa.Value, name string) bool {
+		u, ok := Unwrap(v).(*ssa.UnOp)
+		if !ok {
+			return false
+		}
+		g, ok := u.X.(*ssa.Global)
+		return ok && g.Name() == name
+	}
+	// kind of a bookkeeping test call: "exact", "prefix" or ""
+	var testKind func(call ssa.CallInstruction, depth int) string
+	testKind = func(call ssa.CallInstruction, depth int) string {
+		cc := call.Common()
+		switch {
+		case Named("bytes.Equal")(cc) && len(cc.Args) == 2 && (isGlobal(cc.Args[0], "lfDiscardStatsKey") || isGlobal(cc.Args[1], "lfDiscardStatsKey")):
+			return "exact"
+		case Named("bytes.HasPrefix")(cc) && len(cc.Args) == 2 && !isGlobal(cc.Args[1], "lfDiscardStatsKey") && func() bool {
+			u, ok := Unwrap(cc.Args[1]).(*ssa.UnOp)
+			if !ok {
+				return false
 			}
+			_, isG := u.X.(*ssa.Global)
+			return isG
+		}():
+			return "prefix"
 		}
-	}
-	access := false
-	for _, b := range fn.Blocks {
-		if ifi := ifOf(b); ifi != nil && condMentionsField(ifi.Cond, "NoKV.IteratorOptions", "InternalAccess", 3) {
-			access = true
-		}
-	}
-	c.Decide(pref && access, rule, key(fn, "skips-internal-prefix-unless-InternalAccess"), fn.Pos(), 2, "internal bookkeeping keys are not yielded to users", "TxnIterator.advance yields keys with the engine's internal prefix: the discard-statistics entry that Close writes shows up in full scans (one key more after a clean close and reopen)")
-	// the plain DB iterator hides them as well (it has no internal-access mode)
-	if pf := c.Fn("", "DBIterator.populate"); pf != nil {
-		hides := false
-		for _, hp := range Calls(pf, false, Named("bytes.HasPrefix")) {
-			if u, ok := hp.Common().Args[1].(*ssa.UnOp); ok {
-				if g, ok := u.X.(*ssa.Global); ok && g.Name() == "internalKeyPrefix" {
-					// the true edge leads on to the next entry, never to the emit
-					for e := range boolValueEdges(pf, hp.Value(), true) {
-						emit := false
-						for _, st := range fieldStoresIn(pf, false, "NoKV.DBIterator", "valid") {
-							if sv, isSt := st.(*ssa.Store); isSt {
-								if k, isC := sv.Val.(*ssa.Const); isC && k.Value != nil && k.Value.String() == "true" {
-									if reach, _ := reachFromBlock(pf, e[1], st, instrs(Calls(pf, false, MethodNamed("utils.Iterator", "Next")))); reach {
-										emit = true
-									}
-								}
-							}
-						}
-						if !emit {
-							hides = true
-						}
+		if depth > 0 {
+			if cal := cc.StaticCallee(); cal != nil && cal.Blocks != nil && cal.Pkg != nil && cal.Pkg.Pkg.Path() == Module && types.Identical(cal.Signature.Results().At(0).Type(), types.Typ[types.Bool]) {
+				for _, in := range Calls(cal, false, func(*ssa.CallCommon) bool { return true }) {
+					if k := testKind(in, depth-1); k != "" {
+						return k
 					}
 				}
 			}
 		}
-		c.Decide(hides, rule, key(pf, "skips-internal-prefix"), pf.Pos(), 2, "internal bookkeeping keys are not yielded by the DB iterator", "DBIterator.populate yields keys with the engine's internal prefix: after value-log discard statistics were flushed (no client write) a full scan shows the key !NoKV!discard")
+		return ""
 	}
-	// the statistics key has the prefix
-	if obj := c.P.LookupObj("", "lfDiscardStatsKey"); obj == nil {
-		c.Errorf("UNRESOLVED-ANCHOR NoKV.lfDiscardStatsKey")
+	tests := func(fn *ssa.Function) (out []ssa.CallInstruction, kind string) {
+		for _, call := range Calls(fn, false, func(cc *ssa.CallCommon) bool { return cc.Signature().Results().Len() == 1 }) {
+			if k := testKind(call, 1); k != "" {
+				out = append(out, call)
+				if kind == "" || k == "prefix" {
+					kind = k
+				}
+			}
+		}
+		return
+	}
+	neverEmits := func(pf *ssa.Function, cond ssa.Value, onTrue bool, owner string) bool {
+		ok := false
+		for e := range boolValueEdges(pf, cond, onTrue) {
+			emit := false
+			for _, st := range fieldStoresIn(pf, false, owner, "valid") {
+				if sv, isSt := st.(*ssa.Store); isSt {
+					if k, isC := sv.Val.(*ssa.Const); isC && k.Value != nil && k.Value.String() == "true" {
+						if reach, _ := reachFromBlock(pf, e[1], st, instrs(Calls(pf, false, MethodNamed("utils.Iterator", "Next")))); reach {
+							emit = true
+						}
+					}
+				}
+			}
+			if !emit {
+				ok = true
+			} else {
+				return false
+			}
+		}
+		return ok
+	}
+	const prefixMsg = "the iterator hides every key under the \"!NoKV!\" prefix, not just the engine's own record: Set/Txn.Set accept client keys under that prefix and Get returns them, but scans silently leave them out"
+	if fn := c.Fn("", "TxnIterator.advance"); fn != nil {
+		ts, kind := tests(fn)
+		access := false
+		for _, b := range fn.Blocks {
+			if ifi := ifOf(b); ifi != nil && condMentionsField(ifi.Cond, "NoKV.IteratorOptions", "InternalAccess", 3) {
+				access = true
+			}
+		}
+		c.Decide(len(ts) > 0 && access, rule, key(fn, "skips-internal-prefix-unless-InternalAccess"), fn.Pos(), 2, "internal bookkeeping keys are not yielded to users", "TxnIterator.advance yields keys with the engine's internal prefix: the discard-statistics record written by the engine shows up in user scans")
+		c.Decide(kind != "prefix", rule, key(fn, "hides-only-the-engine's-keys"), fn.Pos(), 2, "only the engine's own record is hidden", prefixMsg)
+	}
+	// the plain DB iterator hides them as well (it has no internal-access mode)
+	if pf := c.Fn("", "DBIterator.populate"); pf != nil {
+		ts, kind := tests(pf)
+		hides := false
+		for _, t := range ts {
+			if neverEmits(pf, t.Value(), true, "NoKV.DBIterator") {
+				hides = true
+			}
+		}
+		c.Decide(hides, rule, key(pf, "skips-internal-prefix"), pf.Pos(), 2, "internal bookkeeping keys are not yielded by the DB iterator", "DBIterator.populate yields keys with the engine's internal prefix: after value-log discard statistics were flushed a full scan shows one key more than the client wrote")
+		c.Decide(kind != "prefix", rule, key(pf, "hides-only-the-engine's-keys"), pf.Pos(), 2, "only the engine's own record is hidden", prefixMsg)
+		if c.Prop == "C06" {
+			// Options.Prefix: a key without the requested prefix is never emitted
+			filtered := false
+			for _, hp := range Calls(pf, false, Named("bytes.HasPrefix")) {
+				if a := hp.Common().Args; len(a) == 2 && isFieldLoad(a[1], "NoKV.DBIterator", "prefix") && neverEmits(pf, hp.Value(), false, "NoKV.DBIterator") {
+					filtered = true
+				}
+			}
+			reads := false
+			if ni := c.Fn("", "DB.NewIterator"); ni != nil {
+				AllInstrs(ni, false, func(in ssa.Instruction) {
+					if v, ok := in.(ssa.Value); ok && isFieldLoad(v, "utils.Options", "Prefix") {
+						reads = true
+					}
+				})
+			}
+			c.Decide(filtered && reads, rule, key(pf, "applies-Options.Prefix"), pf.Pos(), 3, "keys outside the requested prefix are never emitted", "DB.NewIterator ignores utils.Options.Prefix (the transaction iterator honours it): a prefix scan returns every key of the store")
+		}
 	}
 }
 
@@ -3093,4 +3157,77 @@ func memTableSizePositiveGroup(c *Ctx, rule string) {
 		}
 	}
 	c.Decide(ok, rule, key(open, "MemTableSize<=0→default-before-NewLSM"), open.Pos(), 3, "an unset memtable size is replaced by a positive one before the LSM is built", "Options.MemTableSize is handed to the LSM as it is: with the zero value (documented as `not set` by every other user of the field) the LSM write path rotates memtables for ever, the first write never returns and Close hangs behind the commit worker")
+}
+
+// oracleSeedNoWrapGroup (C04, C12): Open seeds the oracle with lsm.MaxVersion()+1.  Plain
+// (non-transactional) writes are stored at the sentinel version MaxUint64, so one plain write
+// anywhere in the store makes MaxVersion() the sentinel and the seed wraps to 0: the next commit
+// is assigned version 0, below every committed version, and dies in an assertion.  Necessary
+// condition: the seed `committed + 1` is not computed when committed is MaxUint64.
+func oracleSeedNoWrapGroup(c *Ctx, rule string) {
+	c.Rule(rule, "oracle.initCommitState does not reach the store of committed+1 into nextTxnTs when committed == math.MaxUint64 (the version every plain write carries) and reaches it otherwise (order-sign evaluation)")
+	fn := c.Fn("", "oracle.initCommitState")
+	if fn == nil || len(fn.Params) < 2 {
+		return
+	}
+	committed := fn.Params[1]
+	isNext := func(v ssa.Value) bool {
+		bo, ok := Unwrap(v).(*ssa.BinOp)
+		if !ok || bo.Op != token.ADD {
+			return false
+		}
+		k, ok := ConstInt(bo.Y)
+		return ok && k == 1 && Unwrap(bo.X) == committed
+	}
+	var seeds []ssa.Instruction
+	for _, st := range Calls(fn, false, Named("(*sync/atomic.Uint64).Store")) {
+		if a := st.Common().Args; len(a) == 2 && isNext(a[1]) {
+			seeds = append(seeds, st.(ssa.Instruction))
+		}
+	}
+	c.Floor(rule, len(seeds), 1, "stores of committed+1 into the timestamp counter")
+	role := func(v ssa.Value) string {
+		if Unwrap(v) == committed {
+			return "committed"
+		}
+		if k, ok := ConstUint(Unwrap(v)); ok && k == ^uint64(0) {
+			return "max"
+		}
+		if isNext(v) {
+			return "next"
+		}
+		return ""
+	}
+	scen := func(atMax bool) map[string]int {
+		signs := map[string]int{}
+		if atMax {
+			SetSign(signs, "committed", "max", 0)
+			SetSign(signs, "next", "0", 0)
+			SetSign(signs, "next", "committed", -1)
+		} else {
+			SetSign(signs, "committed", "max", -1)
+			SetSign(signs, "next", "0", 1)
+			SetSign(signs, "next", "committed", 1)
+		}
+		SetSign(signs, "committed", "0", 1)
+		return signs
+	}
+	wrap, normal := false, true
+	for _, sd := range seeds {
+		if (&SignEnv{Role: role, Signs: scen(true), Depth: 1}).Reaches(fn, sd) {
+			wrap = true
+		}
+		if !(&SignEnv{Role: role, Signs: scen(false), Depth: 1}).Reaches(fn, sd) {
+			normal = false
+		}
+	}
+	k := key(fn, "seed-unreachable-when-recovered-version-is-the-plain-write-sentinel")
+	switch {
+	case wrap:
+		c.Fail(rule, k, fn.Pos(), 2*len(seeds)+1, "the oracle is seeded with committed+1 also when committed is math.MaxUint64, the version of every plain DB.Set: after a reopen nextTxnTs is 0, the next commit gets version 0 (below every committed version) and the process dies in AssertTrue(ts >= lastCleanupTs)")
+	case !normal:
+		c.Fail(rule, k, fn.Pos(), 2*len(seeds)+1, "the oracle is not seeded although the recovered version is an ordinary one")
+	default:
+		c.Pass(rule, k, fn.Pos(), 2*len(seeds)+1, "no wrap: the seed is not computed from the sentinel version")
+	}
 }
